@@ -35,7 +35,8 @@ def run(tier):
                 combos.add((tag, e["api"], e["cls"], e["sb"], e["out"]))
         for b, e in bad:
             chk.violation("[%s] checked entry point outside the C02 Contract: %s" % (tag, mc.pretty(e)), mc.pretty(e))
-        chk.sample(mc.pretty(ev[10]))
+        if len(ev) > 10:
+            chk.sample(mc.pretty(ev[10]))
     chk.cov["programs"] = len(mine)
     chk.cov["disagreements_checked"] = len(mine)
     # the same refusals in the library's DEFAULT failure configuration (no exceptions, no custom handler): the process ends
